@@ -23,8 +23,8 @@ CLAIMS = {
          "template loading/filling inside the loop is havocked; the default-layout dispatch in Render is not under contract; filepath.Join/Dir and fs.Stat are uninterpreted."),
  "C08": ("template.Fill: the root scope is a fresh map with front-matter > passed data > config for every key (three map-range loops with visited-set invariants, exact postcondition); Stack.EnvMap agrees with Lookup for every name (scopes innermost-first, root struct fields as fallback).",
          "one inner-loop invariant of EnvMap is listed as not decided; toMapData (struct data through reflection) is a trusted contract; loadConfig order not under contract."),
- "C09": ("Lock discipline for every shared cache (ExprEvaluator.programs, Vue.templateCache, the global pathCache): the guarded map is read only with its RWMutex held (read or write) and written only with the write lock; every locking function starts with no lock held and releases everything on every return path (ghost held-state, Lock/RLock/Unlock/RUnlock preconditions); clone helpers used before evaluation return fresh nodes with copied attribute slices.",
-         "NOT a schedule exploration: interleavings, happens-before outside the declared guarded fields, pool hand-over and 'same bytes as alone' are not decided; assumes no lock is held when a locking function is entered."),
+ "C09": ("Lock discipline for every shared cache (ExprEvaluator.programs, Vue.templateCache, the global pathCache): the guarded map is read only with its RWMutex held (read or write) and written only with the write lock; every locking function starts with no lock held and releases everything on every return path (ghost held-state, Lock/RLock/Unlock/RUnlock preconditions); clone helpers used before evaluation return fresh nodes with copied attribute slices; Vue.Render and RenderFragment root the scope stack on a map allocated by the call (front-matter is merged into a copy, never into the caller's shared data).",
+         "NOT a schedule exploration: interleavings, happens-before outside the declared guarded fields and pool hand-over are not decided by contracts; assumes no lock is held when a locking function is entered. 'Same bytes as alone' and data-race freedom are covered only by a BOUNDED stand-in (bounded/C09__concurrency__root.go.txt: one engine and one base template, 8 goroutines x 30 rounds x 5 entry points = 1200 calls from cold caches under the Go race detector, each output compared with the sequential run), reported under coverage.bounded and never counted as proved."),
  "C10": ("Pool discipline: Pop empties a map before Put (loop invariant over the visited set) and only recycles maps that came from the pool (object invariant of Stack, ghost fromPool); the pooled strings.Builder is Reset before Put on every path of interpolate (deferred closure); NewNode zeroes every field; clone helpers copy attribute slices; Fill never adopts the caller's map. Determinism sweep: for every function one obligation order:maprange states that no map-range loop feeds an order-sensitive accumulator (append / string concatenation carried around the loop, writes to an outer writer) unless a sort call dominates every later use.",
          "the order:maprange obligations are decided by a dataflow rule over go/ssa (backend 'dataflow'), not by the solver; calls of arbitrary functions inside a map-range body are not analysed; time-seeded v-once ids are not under contract."),
  "C11": ("Zero-annotation panic sweep over every function of the production packages: index/slice bounds, nil dereference, type assertions, nil-map writes, division by zero, explicit panics; layout loop termination (decreases). Discharged obligations form the baseline.",
@@ -40,7 +40,7 @@ CLAIMS = {
  "C15": ("loadCachedWithFrontMatter with the cache as an object invariant of Vue (every entry is the parse of its file at the entry's mtime): a successful load returns the parse for the file's current mtime, a file that cannot be stat-ed is an error, a failed load leaves the cache unchanged, the invariant is re-established on every path.",
          "assumes (trusted contract of loadFragment) that a read returns the content belonging to the mtime a Stat reports at that moment, and equal non-zero mtime => equal content (the cache's documented assumption); Load/include paths that bypass the cache are not related to it by contract."),
  "C16": ("In evaluate, whenever control reaches the v-pre/v-for/v-if dispatch for an element carrying v-once, its id is already recorded in the per-render seen set (assert-at clause); NewVueContext creates a fresh empty seen set; WithTemplate shares it along the include chain.",
-         "id assignment (distinct non-empty ids for every v-once element at every entry point) is not decided; skipping of already-seen elements is not stated as a clause."),
+         "assignOnceIDs (recursive closure over the tree) is a trusted contract: distinct non-empty ids per parse are not proved (witness tests only); skipping of already-seen elements is not stated as a clause; an element that still carries v-for is exempt from the marking clause (its per-item clones are checked instead)."),
  "C19": ("Formatter output functions: escapeText equals a recursive spec for all strings (outside complete mustaches & < > become references, mustaches are copied byte for byte); renderOpenTag writes every attribute value between double quotes with its own double quotes as &quot; (exact recursive spec over the attribute list).",
          "FormatAttr (regexp) is a trusted contract; idempotence and parse-equivalence of whole documents are relations through the external HTML5 parser and are not decided; front-matter/doctype/raw-text clauses not under contract."),
  "C17": ("Stack as a scope stack: Lookup = innermost binding else root field (recursive spec lookupIdx, loop invariant), Set touches only the top scope, Push/Pop restore the scope list, Pop keeps >= 1 scope, EnvMap agrees with Lookup, Copy is fresh and equal; object invariant len(pooled)==len(stack).",
